@@ -27,6 +27,7 @@ RULE = ("random input tables (1-4 samples, 1-8 mutations quick; up to 6 x 24 tho
         "sample ids lexicographic-vs-numeric traps (S9/S10, 9/10), mutation ids fixed width / variable width / mixed case; "
         "half the tables come with a cluster file (numeric cluster ids crossing 9/10, optional outlier_prob column, optional "
         "per-sample duplicate lines, clusters whose members are all filtered out, rarely a kept mutation without a cluster). "
+        "18 hand-written tables (one per clause and per exclusion) run on every seed.  "
         "Every table is written to a temporary directory and loaded by the real load_pyclone_data and load_data; the result "
         "(samples, mutation names and order, per-sample ref/alt/genotype rows/VAF rows/tumour content, data point idx/name, "
         "cluster membership via summed likelihood grids, cluster outlier probabilities) or the exception class is compared "
@@ -53,7 +54,7 @@ ASSUMPTIONS = [
     "assignment from chromosome positions switched off (assign_loss_prob = False)",
 ]
 SEARCH_BUDGET = 60
-MAX_JOBS = 8
+MAX_JOBS = 6
 TOL = 1e-9
 
 COLS = ["mutation_id", "sample_id", "ref_counts", "alt_counts", "major_cn", "minor_cn", "normal_cn"]
@@ -115,7 +116,7 @@ def gen_table(rnd, tier, force=None):
     muts, samples = _mut_ids(rnd, nM), _sample_ids(rnd, nS)
     rows = []
     p_pert = rnd.choice([0.0, 0.3, 0.4, 0.5, 0.6, 0.8, 0.8])
-    rare = rnd.choice(["offset", "mlm", "both"]) if rnd.random() < 0.15 else None  # tables with offset mixes / major < minor
+    rare = rnd.choice(["offset", "mlm", "both"]) if rnd.random() < 0.2 else None  # tables with offset mixes / major < minor
     for mi, m in enumerate(muts):
         cells = {s: [_base_row(rnd, m, s)] for s in samples}
         perturb = rnd.random() < p_pert
@@ -215,9 +216,42 @@ def gen_intids(rnd):
             "clusters": None, "op_prob": "0.0001", "grid": 3, "perms": [rnd.randrange(1 << 30) for _ in range(2)]}
 
 
+def _fixed(rows, **kw):
+    c = {"kind": "table", "sep": "\t", "hasTC": False, "hasErr": False, "colseed": 7, "extra_col": False, "rows": rows,
+         "clusters": None, "op_prob": "0.0001", "grid": 3, "perms": [11, 12, 13]}
+    c.update(kw)
+    return c
+
+
+def fixed_cases():
+    """Hand-written tables run on every seed: one per clause of the property and per exclusion."""
+    R = lambda m, s, major=1, minor=1, ref=10, alt=5, normal=2, tc="0.75", err="0.01": [m, s, ref, alt, major, minor, normal, tc, err]
+    full = [R(m, s, ref=10 + i, alt=3 + j) for i, m in enumerate(["m2", "m10", "m1"]) for j, s in enumerate(["S2", "S10", "S1"])]
+    return [
+        _fixed(full),                                                                    # lexicographic order of ids and samples
+        _fixed(full, sep=",", hasTC=True, hasErr=True),
+        _fixed(full + [R("m3", "S1"), R("m3", "S2")]),                                    # missing in one sample
+        _fixed(full + [R("m3", "S1"), R("m3", "S2"), R("m3", "S10", major=0, minor=0)]),   # zero major copy number in one sample
+        _fixed(full + [R("m3", "S1"), R("m3", "S2"), R("m3", "S10"), R("m3", "S10")]),     # duplicated
+        _fixed(full + [R("m3", "S1"), R("m3", "S2"), R("m3", "S10"), R("m3", "S10", major=0, minor=0)]),  # duplicate with major 0: kept
+        _fixed(full + [R("m3", "S1"), R("m3", "S1"), R("m3", "S2")]),                      # offset mix, duplicate first: ValueError
+        _fixed(full + [R("m3", "S2"), R("m3", "S10"), R("m3", "S10")]),                    # offset mix, missing first: KeyError
+        _fixed(full + [R("m0", "S1"), R("m0", "S2", major=1, minor=2), R("m0", "S10")]),   # major < minor in a kept mutation
+        _fixed(full + [R("m0", "S1"), R("m0", "S2", major=1, minor=2)]),                   # major < minor in a dropped mutation: loads
+        _fixed(full + [R("m0", "S1", major=2, minor=2), R("m0", "S2", major=2, minor=0, normal=2), R("m0", "S10", major=1, minor=0, normal=1)]),
+        _fixed([R("m1", "S1"), R("m1", "S2", major=0, minor=0), R("m2", "S1")]),           # excluded: a sample without usable row
+        _fixed([R("m1", "S1"), R("m2", "S2")], kind="none_kept"),                          # nothing kept, optional columns absent
+        _fixed([R("m1", "S1"), R("m2", "S2")], kind="none_kept", hasTC=True),
+        _fixed(full, clusters=[["m1", 10, None], ["m2", 9, None], ["m10", 10, None], ["gone", 3, None]]),
+        _fixed(full + [R("m3", "S1")], clusters=[["m1", 10, "0.2"], ["m2", 9, "0.0"], ["m10", 10, "0.2"], ["m3", 4, "0.1"]], cluster_per_sample_lines=True),
+        _fixed(full, clusters=[["m1", 10, None], ["m2", 9, None]]),                        # kept mutation without cluster: KeyError
+        _fixed(full, clusters=[["m1", 1, None], ["m2", 0, None], ["m10", 1, None]], op_prob="0"),
+    ]
+
+
 def cases(tier, rnd):
-    out = []
-    n = 260 if tier == "quick" else 1400
+    out = fixed_cases()
+    n = 180 if tier == "quick" else 1400
     for _ in range(n):
         out.append(gen_table(rnd, tier))
     for _ in range(10 if tier == "quick" else 60):
